@@ -51,6 +51,23 @@ def minList : List Int → Int
 /-- `round(x)` for a finite double `0 ≤ x < 2^63` (the model's rounding; negative arguments not modelled) -/
 def round (x : Float) : Int := Int.ofNat (CR.Gen.pyRoundNonneg x)
 
+/-- `xs.pop()`'s value: the last element (empty list: IndexError — not modelled, yields `default`) -/
+def last {α : Type} [Inhabited α] (xs : List α) : α := xs.getLastD default
+
+/-- `xs.sort()` on a list of ints -/
+def sortInts (xs : List Int) : List Int := xs.mergeSort (fun a b => decide (a ≤ b))
+
+/-- `while c(st): st = body(st)`, at most `fuel` iterations; `none` when the condition still holds after `fuel`
+iterations -/
+def whileFuel {σ : Type} : Nat → (σ → Bool) → (σ → σ) → σ → Option σ
+  | 0, c, _, st => if c st then none else some st
+  | fuel + 1, c, body, st => if c st then whileFuel fuel c body (body st) else some st
+
+/-- value of a call of a fuel-bounded unit inside another unit: `default` when it ran out of fuel -/
+def orDefault {α : Type} [Inhabited α] : Option α → α
+  | some x => x
+  | none => default
+
 /-! dicts as association lists in insertion order -/
 def dictHas {κ β : Type} [BEq κ] (d : List (κ × β)) (k : κ) : Bool := d.any (fun e => e.1 == k)
 def dictGet {κ β : Type} [BEq κ] [Inhabited β] (d : List (κ × β)) (k : κ) : β :=
